@@ -92,9 +92,17 @@ func (g *Gateway) HandleGatewayProtocol(w http.ResponseWriter, r *http.Request) 
 			RDGId:      connId,
 			RemoteAddr: id.GetAttribute(identity.AttrRemoteAddr).(string),
 			User:       id,
+			owner:      id.UserName(),
 		}
 	} else {
 		t = x.(*Tunnel)
+		if t.owner != id.UserName() {
+			// the connection id is chosen by the client and is no secret: the two channels
+			// of a legacy tunnel belong to one authenticated user
+			log.Printf("%s for connection %s of another user", r.Method, connId)
+			http.Error(w, "connection belongs to another user", http.StatusForbidden)
+			return
+		}
 	}
 	ctx = context.WithValue(ctx, CtxTunnel, t)
 
